@@ -46,7 +46,7 @@ def judge(ctx, mine_coding=(), mine_repair=(), mine_vt=False):
             if r["rec"] == "encode" and graphs[r["g"]]["wellformed"]:
                 d = dec_index.get((r["g"], r["tbl"], r["start"], r["mode"], len(r["msg"]), tuple(r.get("strand", []))))
                 cases.append({"kind": "enc", "g": r["g"], "tbl": r["tbl"], "start": r["start"], "msg": r["msg"], "mode": r["mode"], "vtlen": r["vtlen"],
-                              "enc_out": r["out"], "strand": r.get("strand", []), "vt": r.get("vt", []), "ticks": 0,
+                              "enc_out": r["out"], "strand": r.get("strand", []), "vt": r.get("vt", []), "ticks": 0, "tv": [],
                               "dec_out": d["out"] if d else "none", "decoded": d["bits"] if d else []})
             elif r["rec"] == "decode" and graphs[r["g"]]["wellformed"]:
                 cases.append({"kind": "dec", "g": r["g"], "tbl": r["tbl"], "start": r["start"], "dna": r["dna"], "mode": r["mode"], "w": r["w"],
